@@ -93,6 +93,7 @@ def _run_child(prop, task, wfd, tier, wall):
         rec['ntkey'] = c.ntkey
         rec['ntkeys'] = sorted(c.ntkeys)
         rec['sample'] = c.sample
+        rec['extra'] = c.extra
         ctxmod._write_all(wfd, (json.dumps(rec, default=repr) + '\n').encode())
         os.chdir('/')
         shutil.rmtree(scratch, ignore_errors=True)
